@@ -307,6 +307,30 @@ A2A_FORMS = [
 # ----------------------------------------------------------------------------- expression-level rewrite forms
 # One program per branch of visit_Subscript / create_if_exp / __unroll_arg / visit_Call / ConstantFolder.visit_Call
 # (correspondence only; many are also in the oracle stream of harness/c01.py in other clothes).
+# (tag, annotation of `t`, body over `t`, `i`, `j`, return type)
+NESTED_ANN_FORMS = [
+    ("qlist-of-qlist", "Qlist[Qlist[bool, 3], 2]", "t[i][j]", "bool"),
+    ("qlist-of-qlist-const", "Qlist[Qlist[Qint[2], 3], 2]", "t[1][2] + t[0][0]", "Qint[2]"),
+    ("qlist-of-qlist-rows", "Qlist[Qlist[bool, 3], 2]", "any(t[1]) and all(t[0])", "bool"),
+    ("qlist-of-qlist-len", "Qlist[Qlist[bool, 3], 2]", "len(t) + len(t[1])", "Qint[4]"),
+    ("qlist-of-qint2", "Qlist[Qint2, 3]", "t[i]", "Qint[2]"),
+    ("qlist-of-qmatrix", "Qlist[Qmatrix[bool, 2, 2], 2]", "t[1][0][1]", "bool"),
+    ("qlist-of-qmatrix-var", "Qlist[Qmatrix[bool, 2, 2], 2]", "t[i][j]", "bool"),
+    ("qlist-of-qmatrix-row", "Qlist[Qmatrix[bool, 2, 2], 2]", "len(t[0])", "Qint[2]"),
+    ("qmatrix-of-qlist", "Qmatrix[Qlist[bool, 2], 2, 2]", "t[1][0][1]", "bool"),
+    ("qmatrix-of-qlist-var", "Qmatrix[Qlist[bool, 2], 2, 2]", "t[i][j]", "bool"),
+    ("tuple-of-qlist", "Tuple[Qlist[bool, 3], Qlist[bool, 3]]", "t[i][j]", "bool"),
+    ("tuple-of-qlist-1", "Tuple[Qlist[bool, 3]]", "t[0][i]", "bool"),
+    ("tuple-of-qlist-1-any", "Tuple[Qlist[bool, 3]]", "any(t[0])", "bool"),
+    ("tuple-of-qmatrix", "Tuple[Qmatrix[bool, 2, 3], bool]", "t[0][1][2] and t[1]", "bool"),
+    ("tuple-bool", "Tuple[bool]", "t[i]", "bool"),
+    ("tuple-bool-const", "Tuple[bool]", "t[0]", "bool"),
+    ("tuple-bool-all", "Tuple[bool]", "all(t)", "bool"),
+    ("tuple-qint", "Tuple[Qint[2]]", "t[0] + 1", "Qint[2]"),
+    ("tuple-of-tuple1", "Tuple[Tuple[bool], Tuple[bool]]", "t[i][0]", "bool"),
+]
+
+
 def _expr_forms():
     out = []
 
@@ -408,6 +432,9 @@ def _expr_forms():
     add("ann-tuple-of-qlist", "def f(t: Tuple[Qlist[bool, 3], Qlist[bool, 3]], i: Qint[2], j: Qint[2]) -> bool:\n\treturn t[i][j]")
     add("ann-qlist-of-tuple", "def f(t: Qlist[Tuple[bool, bool, bool], 2], i: Qint[2], j: Qint[2]) -> bool:\n\treturn t[i][j]")
     add("ann-qmatrix-for", "def f(t: Qmatrix[bool, 2, 3]) -> Qint[2]:\n\tc = 0\n\tfor r in t:\n\t\tc = c + 1 if any(r) else c\n\treturn c")
+    # nested container annotations (f3ecbf2: the element annotation is elaborated before it is repeated; Tuple[T] too)
+    for tag, ann, body, rt in NESTED_ANN_FORMS:
+        add("nested-ann:" + tag, f"def f(t: {ann}, i: Qint[2], j: Qint[2]) -> {rt}:\n\treturn {body}")
     add("pow-forms", "def f(a: Qint[2]) -> Qint[8]:\n\treturn a ** 3 + (a + 1) ** 2 + a ** 0 + a ** 1")
     return out
 
